@@ -1,5 +1,7 @@
 package sourceaddrs
 
+import "github.com/apparentlymart/go-versions/versions"
+
 // C06: printed addresses parse back to the same address.
 
 // Open finding KF-C06-url-noncanonical (root cause R6): the URL of a remote address is kept as
@@ -99,4 +101,51 @@ func HarnessC06Derived() {
 	b, err2 := ParseRemoteSource(p)
 	verif.Assert("derived-printed-form-reparses", err2 == nil)
 	verif.Assert("derived-reparse-equal", a == b)
+}
+
+// HarnessC06Versioned: a registry source combined with a selected version (pre-release tag and
+// build metadata from the template's holes) prints to a string ParseFinalSource takes back.
+func HarnessC06Versioned() {
+	reg, err := ParseRegistrySource(verif.SParam("reg", "hashicorp/subnets/cidr"))
+	verif.Assume(err == nil)
+	v, err := versions.ParseVersion(verifTemplate(verif.SParam("tmpl", "1.2.3-{a1}+{a1}")))
+	verif.Assume(err == nil)
+	verif.Reach("derived")
+	a := reg.Versioned(v)
+	p := a.String()
+	verif.Observe("printed", p)
+	b, err2 := ParseFinalSource(p)
+	verif.Assert("versioned-printed-form-reparses", err2 == nil)
+	if err2 == nil {
+		verif.Assert("versioned-reparse-equal", b == FinalSource(a))
+	}
+}
+
+// HarnessC06Resolved: the result of resolving a relative address against a base prints to a string
+// that parses back to it (both flavours of resolve).
+func HarnessC06Resolved() {
+	base, err := ParseSource(verifTemplate(verif.SParam("base", "./{2}")))
+	verif.Assume(err == nil)
+	relS := verifTemplate(verif.SParam("rel", "./{3}"))
+	verif.Assume(verifValidUTF8(relS))
+	rel, err := ParseLocalSource(relS)
+	verif.Assume(err == nil)
+	r, err := ResolveRelativeSource(base, rel)
+	verif.Assume(err == nil)
+	verif.Reach("derived")
+	c06Known(r)
+	p := r.String()
+	verif.Observe("printed", p)
+	b, err2 := ParseSource(p)
+	verif.Assert("resolved-printed-form-reparses", err2 == nil)
+	if err2 == nil {
+		verif.Assert("resolved-reparse-equal", b == r)
+	}
+	if fb, ok := base.(FinalSource); ok {
+		rf, errf := ResolveRelativeFinalSource(fb, rel)
+		if errf == nil {
+			bf, err3 := ParseFinalSource(rf.String())
+			verif.Assert("resolved-final-printed-form-reparses", err3 == nil && bf == rf)
+		}
+	}
 }
